@@ -36,6 +36,9 @@ def main():
     ap.add_argument("--tier", default="quick")
     ap.add_argument("--skip-confirm", action="store_true")
     ap.add_argument("--round", default="1")
+    ap.add_argument("--scratch", action="store_true",
+                    help="apply the change in a scratch worktree of /repo's HEAD and point the checks at it (VERIF_REPO) "
+                         "instead of applying it to /repo: for use while /repo is busy; same checks, same code")
     a = ap.parse_args()
     if a.round == "1":
         src, wt = "/tmp/mut-out/%s" % a.prop, "/tmp/mut-%s" % a.prop
@@ -83,18 +86,28 @@ def main():
         shutil.copy(notes, os.path.join(out, "notes.md"))
         meta["needs"] = open(notes).read()[:1500]
     checks = (a.checks or a.prop).split(",")
-    rc, o = sh("git status --porcelain", cwd="/repo")
+    target, env = "/repo", None
+    if a.scratch:
+        target = "/tmp/seedwt-%d" % os.getpid()
+        rc, o = sh("git worktree add --detach %s HEAD" % target, cwd="/repo")
+        if rc != 0:
+            print("cannot create scratch worktree:", o)
+            return 2
+        env = {"VERIF_REPO": target}
+    rc, o = sh("git status --porcelain", cwd=target)
     if o.strip():
-        print("/repo is not clean, refusing")
+        print("%s is not clean, refusing" % target)
         return 2
-    rc, o = sh("git apply %s" % patch, cwd="/repo")
+    rc, o = sh("git apply %s" % patch, cwd=target)
     if rc != 0:
-        print("cannot apply to /repo:", o)
+        print("cannot apply to %s:" % target, o)
+        if a.scratch:
+            sh("git worktree remove --force %s" % target, cwd="/repo")
         return 2
     try:
         for c in checks:
             t0 = time.time()
-            rc, o = sh("./check %s --tier %s" % (c, a.tier), cwd=ROOT, timeout=7200)
+            rc, o = sh("./check %s --tier %s" % (c, a.tier), cwd=ROOT, env=env, timeout=7200)
             lines = [l for l in o.splitlines() if l.startswith(("VIOLATION", "MACHINERY", "KNOWN-FINDING"))]
             meta["checks"][c] = dict(tier=a.tier, exit=rc, wall_s=round(time.time() - t0, 1), lines=lines[:12],
                                      detected=(rc == 1 and any(l.startswith("VIOLATION") for l in lines)))
@@ -102,8 +115,12 @@ def main():
             for l in lines[:6]:
                 print("   ", l[:200])
     finally:
-        sh("git checkout -- .", cwd="/repo")
-    meta["ran"] = "tools/seedcheck.py %s %s --round %s --checks %s --tier %s" % (a.prop, a.k, a.round, ",".join(checks), a.tier)
+        if a.scratch:
+            sh("git worktree remove --force %s" % target, cwd="/repo")
+        else:
+            sh("git checkout -- .", cwd="/repo")
+    meta["ran"] = "tools/seedcheck.py %s %s --round %s --checks %s --tier %s%s" % (a.prop, a.k, a.round, ",".join(checks), a.tier,
+                                                                                " --scratch" if a.scratch else "")
     meta["detected_by"] = [c for c, v in meta["checks"].items() if v["detected"]]
     with open(os.path.join(out, "meta.json"), "w") as f:
         json.dump(meta, f, indent=1)
